@@ -272,9 +272,8 @@ let c13_read kind zh tys data got =
      | OK n -> "OK " ^ rs hb (ser_node t n)
      | Err -> "ERR" | Panic -> "PANIC")
   else
-    (let (st, d) = new_reader delivered scope in
-     match flat_dec t CFresh st d with
-     | OK (((v, _), _), _) -> "OK " ^ rs hb (flat_enc t v)
+    (match flat_decode_scoped t CFresh delivered scope with
+     | OK (v, _) -> "OK " ^ rs hb (flat_enc t v)
      | Err -> "ERR" | Panic -> "PANIC")
 
 let c13_write_eager kind zh tys vals budget =
@@ -305,8 +304,12 @@ let c20 zh tys data =
   let bs = bytes_of_hex data in
   let (r, a) = view_deserialize_a zh t bs in
   let len = n_of_int (List.length bs) in
-  Printf.sprintf "res=%s malloc=%s bound=%s" (match r with OK _ -> "OK" | Err -> "ERR" | Panic -> "PANIC")
+  let (fr, fa) = flat_decode_a t CFresh bs in
+  Printf.sprintf "res=%s malloc=%s bound=%s fres=%s fmalloc=%s fbound=%s"
+    (match r with OK _ -> "OK" | Err -> "ERR" | Panic -> "PANIC")
     (hn a) (hn (N.add (N.mul (N.mul (n_of_int 2) (perbyte t)) len) (foot t)))
+    (match fr with OK _ -> "OK" | Err -> "ERR" | Panic -> "PANIC")
+    (hn fa) (hn (N.add (N.mul (N.mul (n_of_int 2) (fperbyte t)) len) (N.add (N.add (fnew t) (n_of_int 96)) (ffoot t))))
 
 
 (* ---- extras: Uint8*HTR, Encode/Decode, Sum, Skip, dynamic hex ---- *)
